@@ -547,13 +547,13 @@ func gen(c *core.Ctx) error {
 	c.OracleCheck()
 	for r := rune(0x80); r <= unicode.MaxRune; r++ {
 		if l := unicode.ToLower(r); l < 0x80 && r != 0x130 && r != 0x212a {
-			c.OracleFail("unicode-facts", fmt.Sprintf("unicode.ToLower(%U) is ASCII: the model of strings.ToLower is incomplete", r), nil)
+			c.OracleFail("unicode-facts", fmt.Sprintf("unicode.ToLower(%U) is ASCII: the model of strings.ToLower is incomplete", r), map[string]interface{}{"kind": "unicode"})
 		}
 	}
 	for _, ch := range privPrefix {
 		for f := unicode.SimpleFold(ch); f != ch; f = unicode.SimpleFold(f) {
 			if f >= 0x80 {
-				c.OracleFail("unicode-facts", fmt.Sprintf("%q has the non-ASCII simple fold %U", ch, f), nil)
+				c.OracleFail("unicode-facts", fmt.Sprintf("%q has the non-ASCII simple fold %U", ch, f), map[string]interface{}{"kind": "unicode"})
 			}
 		}
 	}
@@ -568,7 +568,7 @@ func gen(c *core.Ctx) error {
 			c.OracleFail("not-case-insensitive", fmt.Sprintf("name %q is private by case-insensitive matching but the library says V1=%v V2=%v", n, v1, v2), map[string]interface{}{"kind": "priv", "name": []byte(n)})
 		}
 		if message.ClassAdAttributeIsPrivateAny(n) != (v1 || v2) || message.ClassAdAttributeIsPrivateV1(n) != v1 || message.ClassAdAttributeIsPrivateV2(n) != v2 {
-			c.OracleFail("wrapper-differs", fmt.Sprintf("cedar's ClassAdAttributeIsPrivate* differ from the library on %q", n), nil)
+			c.OracleFail("wrapper-differs", fmt.Sprintf("cedar's ClassAdAttributeIsPrivate* differ from the library on %q", n), map[string]interface{}{"kind": "wrapper", "name": []byte(n)})
 		}
 		c.Count(fmt.Sprintf("name-v1=%v-v2=%v", v1, v2))
 	}
@@ -621,7 +621,8 @@ func gen(c *core.Ctx) error {
 						c.OracleCheck()
 						for _, k := range kept {
 							if exP && specPrivate(k) || exV2 && specV2(k) {
-								c.OracleFail("filter-keeps-private", fmt.Sprintf("filter(excludePrivate=%v, excludePrivateV2=%v) kept %q", exP, exV2, k), nil)
+								c.OracleFail("filter-keeps-private", fmt.Sprintf("filter(excludePrivate=%v, excludePrivateV2=%v) kept %q", exP, exV2, k),
+									map[string]interface{}{"kind": "filter-hook", "exP": exP, "exV2": exV2, "wl": tbl[wi], "enc_attrs": tbl[ei], "name": []byte(k)})
 							}
 						}
 						c.Count("filter-raw")
@@ -979,6 +980,8 @@ func replay(raw json.RawMessage) error {
 			Peer  []int    `json:"peer"`
 			EncA  []string `json:"enc_attrs"`
 			Names [][]byte `json:"names"`
+			ExP   bool     `json:"exP"`
+			ExV2  bool     `json:"exV2"`
 		}
 		if err := json.Unmarshal(raw, &d); err != nil {
 			return err
@@ -999,6 +1002,28 @@ func replay(raw json.RawMessage) error {
 			return nil
 		case "filter-raw":
 			return nil
+		case "filter-hook":
+			n := string(d.Name)
+			var kept []string
+			if len(d.WL) == 0 {
+				kept = message.VerifFilterAttributesByPrivacy([]string{n}, d.ExP, d.ExV2, d.EncA)
+			} else {
+				ad := classad.New()
+				_ = ad.Set(n, 1)
+				kept = message.VerifFilterAttributesByWhitelist([]string{n}, ad, d.WL, d.ExP, d.ExV2, d.EncA, 0)
+			}
+			if len(kept) > 0 && (d.ExP && specPrivate(n) || d.ExV2 && specV2(n)) {
+				return fmt.Errorf("filter(excludePrivate=%v, excludePrivateV2=%v) kept %q", d.ExP, d.ExV2, n)
+			}
+			return nil
+		case "wrapper":
+			n := string(d.Name)
+			if message.ClassAdAttributeIsPrivateAny(n) != classad.IsPrivateAttribute(n) || message.ClassAdAttributeIsPrivateV1(n) != classad.IsPrivateAttributeV1(n) || message.ClassAdAttributeIsPrivateV2(n) != classad.IsPrivateAttributeV2(n) {
+				return fmt.Errorf("cedar's ClassAdAttributeIsPrivate* differ from the library on %q", n)
+			}
+			return nil
+		case "unicode":
+			return fmt.Errorf("the Unicode tables of this Go toolchain contradict the model's case-mapping facts")
 		case "priv":
 			n := string(d.Name)
 			if specV1(n) && !classad.IsPrivateAttributeV1(n) || specV2(n) && !classad.IsPrivateAttributeV2(n) {
